@@ -137,7 +137,12 @@ class Tensor:
         if (yamlfile != ""):
             assert(rank_ids is None and shape is None)
 
-            (rank_ids, root, shape, name) = self.parse(yamlfile)
+            (rank_ids, root, shape, name, file_default) = self._parse(yamlfile)
+
+            # A default recorded in the file stands unless the caller
+            # asks for another one
+            if default == 0:
+                default = file_default
 
             if shape is None:
                 shape = root.estimateShape()
@@ -230,13 +235,14 @@ class Tensor:
             Filename of file containing a YAML representation of a tensor
 
 
-        Todo
-        ----
+        Notes
+        -----
 
-        YAML file does not provide a non-zero default value
+        A non-zero default value of the leaf rank is taken from the
+        optional key "default" (see `Tensor.dump()`)
 
         """
-        (rank_ids, root, shape, name) = Tensor.parse(yamlfile)
+        (rank_ids, root, shape, name, default) = Tensor._parse(yamlfile)
 
         if not isinstance(root, Fiber):
             t = Tensor(rank_ids=[], shape=shape, name=name)
@@ -244,7 +250,7 @@ class Tensor:
             t._root = Payload(root)
             return t
 
-        return Tensor.fromFiber(rank_ids, root, shape=shape, name=name)
+        return Tensor.fromFiber(rank_ids, root, shape=shape, name=name, default=default)
 
 
     @classmethod
@@ -1970,6 +1976,12 @@ class Tensor:
     def parse(file):
         """Parse a yaml file containing a tensor"""
 
+        return Tensor._parse(file)[:4]
+
+    @staticmethod
+    def _parse(file):
+        """Parse a yaml file containing a tensor (including its default)"""
+
         with open(file, 'r') as stream:
             try:
                 y_file = yaml.load(stream, Loader=TupleSafeLoader)
@@ -2027,7 +2039,13 @@ class Tensor:
         #
         fiber = Fiber.dict2fiber(y_root[0])
 
-        return (rank_ids, fiber, shape, name)
+        #
+        # Get the default value of the leaf rank (only written when
+        # it is not zero)
+        #
+        default = y_tensor.get('default', 0)
+
+        return (rank_ids, fiber, shape, name, default)
 
 
     def dump(self, filename):
@@ -2045,6 +2063,12 @@ class Tensor:
                         'shape': self.getShape(),
                         'name': self.getName(),
                         'root': [root_dict]}}
+
+        # A non-zero default of the leaf rank is part of the content
+        if len(self.ranks) > 0:
+            default = Payload.get(self.getDefault())
+            if isinstance(default, (bool, int, float, str)) and default != 0:
+                tensor_dict['tensor']['default'] = default
 
         with open(filename, 'w') as file:
             yaml.dump(tensor_dict, file)
